@@ -12,6 +12,7 @@ dim(a) dim(b) 1e-8 / |z - (E_b - E_a)|  (residues below 1e-8 are dropped before 
 """
 import json, random, sys
 import mpmath as mp
+import random
 import pv, exact
 
 NS = [-3, -2, -1, 0, 1, 2, 50, -50]
@@ -60,6 +61,69 @@ def check_gf(c, m, p, im, r, beta, route, rep):
             c.nontriv("%s (%d,%d) %s" % (m["id"], i, j, "off" if i != j else "diag"))
         n_ok += 1
     return True
+
+
+def gfcontainer_histories(c, thorough):
+    import models
+    cfg_mc, cfg_emit = "Container2MC", "Container2Emit"
+    if thorough:
+        for (src, dst) in (("Container2MC", "Container2MC4"), ("Container2Emit", "Container2Emit4")):
+            open(pv.SPEC + "/%s.cfg" % dst, "w").write(open(pv.SPEC + "/%s.cfg" % src).read().replace("MaxCalls = 3", "MaxCalls = 4"))
+        cfg_mc, cfg_emit = "Container2MC4", "Container2Emit4"
+    r = pv.run_tlc("Container2MC", cfg_mc, workers=8, timeout=1800)
+    c.add_tlc(r, "Container2MC")
+    if r.violated:
+        pv.log("INFRA: Container2.tla design level violates its definition level: %s" % r.violated)
+        sys.exit(2)
+    em = pv.run_tlc("Container2MC", cfg_emit, workers=1, timeout=1800, heap="8g")
+    pv.tlc_or_die(em, "Container2MC/Emit")
+    trans = em.pv
+    exe = pv.harness("plain", "pv_driver")
+    ms = [models.mixed_sites(), models.spinless_chain(3)] + ([models.spinflip_atom(), models.random_model(random.Random(c.seed), "c2rnd", max_modes=3)] if thorough else [])
+    ms = [m for m in ms if models.nmodes(m) >= 3][:3] or ms[:1]
+    scen = []
+    for k, t in enumerate(trans):
+        m = ms[k % len(ms)]
+        calls = [list(a) for a in t["pre"]] + [t["act"]]
+        scen.append(dict(m, kind="container2", id="c2:%s:%d" % (m["id"], k), beta="1.5", freqs=[-2, -1, 0, 1], calls=calls))
+    recs, crashed = pv.run_driver_resilient(exe, scen, timeout=3000)
+    sc_of = {s["id"]: s for s in scen}
+    for s in scen:
+        if s["id"] in crashed:
+            c.violation("GFContainer: library crashed in the call history %s" % json.dumps(s["calls"]), s, cls="container2:crash")
+    ev = [r for r in recs if r.get("e") in ("CBegin", "Call") and r.get("id") not in crashed]
+    for r in recs:
+        if r.get("e") == "Fail":
+            c.violation("GFContainer: model %s could not be built: %s" % (r.get("id"), r.get("fail")), sc_of.get(r.get("id")), cls="container2:setup")
+    pos, guard = 0, 0
+    while pos < len(ev) and guard < 40:
+        guard += 1
+        v = pv.validate_trace("Container2Trace", "Container2Trace", ev[pos:], "C01/c2-%d" % (guard % 3), timeout=1800, heap="8g")
+        pv.tlc_or_die(v.res, "Container2Trace")
+        c.states += v.res.distinct
+        c.transitions += v.res.generated
+        if guard == 1:
+            c.tlc_cmds.append(v.res.cmd)
+        if v.accepted:
+            break
+        bad = ev[pos + v.matched]
+        s = sc_of.get(bad["id"], {})
+        c.violation("GFContainer after the call history %s: call %s returned %s with map %s, elements %s%s -- not a behaviour of Container2.tla" % (
+            json.dumps(s.get("calls", [])[:-1]), json.dumps(bad["act"]), bad["res"], json.dumps(bad["em"])[:200], json.dumps(bad["el"])[:200],
+            (", value differs from the directly constructed G by %s" % bad.get("maxdiff")) if bad["act"][0] == "Eval" else ""), s, cls="container2")
+        nxt = pos + v.matched + 1
+        while nxt < len(ev) and ev[nxt]["e"] != "CBegin":
+            nxt += 1
+        pos = nxt
+    c.traces += len(scen)
+    nv = 0
+    for r in ev:
+        if r.get("e") == "Call":
+            c.evaluations += 1
+            if r["act"][0] == "Eval" and r["res"] == "value" and r.get("nonzero_ref"):
+                nv += 1
+    c.nontriv("GFContainer transition graph: %d transitions replayed, %d evaluations of computed non-vanishing elements" % (len(trans), nv))
+    c.extra["gfcontainer"] = {"transitions": len(trans), "models": [m["id"] for m in ms], "nonvanishing_evaluations": nv}
 
 
 def main():
@@ -120,6 +184,11 @@ def main():
               "(model, component) with at least one Lehmann term" % (len(ms), len(betas), len(NS), len(ZS)))
     c.trusted = ["TLC", "tools/exact.py comparator (mpmath)", "harness gf query"]
     c.assumptions = ["exact family only (rational spectra): generic irrational spectra are reached by C08/C11/C12/C18", "real build"]
+    # GFContainer as a state machine (spec/Container2.tla): TLC checks owner soundness, no sharing, evaluability after computeAll and
+    # "prepareAll lists exactly the requested pairs" on every state reachable in 3 (thorough 4) calls; every explored transition is replayed
+    # into a real GFContainer (map, element identities, statuses) and every evaluated element is compared bit for bit with a GreensFunction
+    # constructed directly for that pair; simulated longer histories likewise (Container2Trace.tla)
+    gfcontainer_histories(c, thorough)
     # call histories of the documented workflow (spec/Workflow.tla): repeated prepare()/compute() are no-ops, a call changes the data of
     # its own object only, and whatever the history, the finished object holds the data of the canonical linear order
     import workflow
